@@ -649,7 +649,41 @@ impl<'a, K: HashKind> Case<'a, K> {
 
     // ------------------------------------------------------------------ commit
 
+    /// One commit that inserts several hundred to a few thousand new keys sharing a fresh long
+    /// prefix (they all resolve to one terminal of the previous trie), plus a few keys after the
+    /// cluster: long runs of look-ahead / warm-up results for a single terminal.
+    fn op_cluster_burst(&mut self) {
+        let base = self.rng.key();
+        let plen = self.rng.range(24, 200) as usize;
+        let n = self.rng.range(520, 2200) as usize;
+        let mut keys: std::collections::BTreeSet<Key> = nvcore::keygen::cluster(&mut self.rng, &base, plen, n).into_iter().collect();
+        for _ in 0..self.rng.range(1, 6) {
+            // keys after the cluster: same leading byte(s), larger
+            let mut k = base;
+            let i = (plen / 8).min(30);
+            k[i] = k[i].saturating_add(1 + self.rng.below(3) as u8);
+            k[31] = self.rng.below(256) as u8;
+            keys.insert(k);
+            keys.insert(self.rng.key());
+        }
+        let st = self.next_stamp();
+        let b: Batch = keys
+            .into_iter()
+            .enumerate()
+            .map(|(i, k)| {
+                let len = self.rng.range(0, 12) as usize;
+                (k, Access::Write(Some(crate::gen::stamped_value(st + i as u64, len))))
+            })
+            .collect();
+        self.rep.feat("cluster_bursts", 1);
+        let via = self.rng.below(10);
+        self.commit_batch(b, via, "cluster-burst");
+    }
+
     fn op_commit(&mut self) {
+        if self.rng.below(100) < 5 {
+            return self.op_cluster_burst();
+        }
         let bp = self.batch_params();
         let st = self.next_stamp();
         let view = self.sut.model.kv.clone();
